@@ -30,7 +30,7 @@ def unbe_term(s, b):
     t = unbe(b)
     s.assume(t >= 0)
     n = simp(z3.Length(b))
-    widths = [n.as_long()] if z3.is_int_value(n) else [1, 2, 4, 8]
+    widths = [n.as_long()] if z3.is_int_value(n) else [1, 2, 3, 4, 8, 12, 16, 32]
     for w in widths:
         guard = (lambda z: z) if z3.is_int_value(n) else (lambda z, w=w: z3.Implies(z3.Length(b) == w, z))
         s.assume(guard(t < 256 ** w))
